@@ -32,18 +32,18 @@ type recEvent struct {
 	Texts  []string       `json:"texts,omitempty"`
 }
 
+// recorder buffers the events of one path (paths are recorded in parallel and merged in order).
 type recorder struct {
-	w        *ndjsonWriter
 	rnd      *rand.Rand
 	maxCalls int
 	hostSets bool
 	layouts  bool
-	nEvents  int
+	events   []recEvent
 }
 
 func (rc *recorder) emit(e recEvent) error {
-	rc.nEvents++
-	return rc.w.Write(e)
+	rc.events = append(rc.events, e)
+	return nil
 }
 
 func randomHostVal(rnd *rand.Rand) Val {
@@ -251,22 +251,53 @@ func coreRecord(m map[string]string) error {
 	if err != nil {
 		return err
 	}
-	rc := &recorder{w: w, rnd: rand.New(rand.NewSource(Seed()*31 + 5)), maxCalls: argInt(m, "calls", 30),
-		hostSets: m["hostsets"] == "1", layouts: m["layouts"] == "random"}
+	meta, err := newNDJSON(m["out"] + ".meta")
+	if err != nil {
+		return err
+	}
 	paths := argInt(m, "paths", 3)
-	for ci, c := range cases {
+	type job struct{ ci, path int }
+	jobs := make([]job, 0, len(cases)*paths)
+	for ci := range cases {
 		for p := 0; p < paths; p++ {
-			var err error
-			if m["mode"] == "snap" {
-				err = rc.driveSnap(ci+1, c, p)
-			} else {
-				err = rc.drive(ci+1, c, p)
+			jobs = append(jobs, job{ci, p})
+		}
+	}
+	results := make([][]recEvent, len(jobs))
+	errs := make([]error, len(jobs))
+	base := Seed()*31 + 5
+	parallelFor(len(jobs), func(j int) {
+		jb := jobs[j]
+		rc := &recorder{rnd: rand.New(rand.NewSource(base + int64(j)*1000003)), maxCalls: argInt(m, "calls", 30),
+			hostSets: m["hostsets"] == "1", layouts: m["layouts"] == "random"}
+		if m["mode"] == "snap" {
+			errs[j] = rc.driveSnap(jb.ci+1, cases[jb.ci], jb.path)
+		} else {
+			errs[j] = rc.drive(jb.ci+1, cases[jb.ci], jb.path)
+		}
+		results[j] = rc.events
+	})
+	n := 0
+	for j := range jobs {
+		if errs[j] != nil {
+			return errs[j]
+		}
+		for _, e := range results[j] {
+			n++
+			if e.Ev == "reset" {
+				if err := meta.Write(map[string]any{"line": n, "id": e.ID, "path": e.Path, "layout": e.Layout, "texts": e.Texts}); err != nil {
+					return err
+				}
+				e.Layout, e.Texts = nil, nil
 			}
-			if err != nil {
+			if err := w.Write(e); err != nil {
 				return err
 			}
 		}
 	}
-	fmt.Printf("{\"cases\":%d,\"paths\":%d,\"events\":%d}\n", len(cases), len(cases)*paths, rc.nEvents)
+	fmt.Printf("{\"cases\":%d,\"paths\":%d,\"events\":%d}\n", len(cases), len(jobs), n)
+	if err := meta.Close(); err != nil {
+		return err
+	}
 	return w.Close()
 }
